@@ -6,5 +6,5 @@ pub use crate::lib_wasm::{
 };
 pub use crate::rewriter::{print_js, rewrite_js, Config, OriginalSourceMap, RewrittenOutput};
 pub use crate::transform::transform_status::{Status, TransformStatus};
-pub use crate::util::{file_name, rnd_string, FileReader};
+pub use crate::util::{file_name, rnd_string, DefaultFileReader, FileReader};
 pub use crate::visitor::literal_visitor::{LiteralInfo, LiteralLocation, LiteralsResult};
